@@ -92,14 +92,14 @@ Proof.
       destruct (length bufs =? 1)%nat eqn:E1.
       * destruct bufs as [|b [|b2 bs]]; try discriminate. cbn. now rewrite app_nil_r.
       * destruct (1 <? length bufs)%nat eqn:E2.
-        -- unfold pcall_of_wcall. cbn [rk riov roff]. repeat apply f_equal. symmetry. exact Hf.
+        -- unfold pcall_of_wcall. cbn [rk riov roff]. do 2 f_equal. symmetry. exact Hf.
         -- destruct bufs as [|b [|b2 bs]]; simpl in *; try congruence; discriminate.
     + apply Z.ltb_ge in Eo.
       replace (off =? -1) with false by (symmetry; apply Z.eqb_neq; lia). cbv iota.
       destruct (length bufs =? 1)%nat eqn:E1.
       * destruct bufs as [|b [|b2 bs]]; try discriminate. cbn. now rewrite app_nil_r.
       * destruct (1 <? length bufs)%nat eqn:E2.
-        -- unfold pcall_of_wcall. cbn [rk riov roff]. repeat apply f_equal. symmetry. exact Hf.
+        -- unfold pcall_of_wcall. cbn [rk riov roff]. do 2 f_equal. symmetry. exact Hf.
         -- destruct bufs as [|b [|b2 bs]]; simpl in *; try congruence; discriminate.
 Qed.
 
@@ -164,7 +164,7 @@ Qed.
 (* r == -1 ? UV__ERR(errno) : r on every route *)
 Theorem errno_mapping :
   forall r : pres out,
-  (rc r = -1 -> result_z out r = - perrno out r) /\ (rc r <> -1 -> result_z out r = rc out r).
+  (rc out r = -1 -> result_z out r = - perrno out r) /\ (rc out r <> -1 -> result_z out r = rc out r).
 Proof.
   intros r. unfold result_z. split; intros H.
   - rewrite H. reflexivity.
@@ -219,7 +219,7 @@ Proof.
     - apply Z.eqb_neq in E. apply Z.eqb_neq. unfold EOPNOTSUPP. lia. }
   assert (Hgo : forall (X : Type) (a b : X),
              match kernel_of_sqe s with PInvalid _ => a | _ => b end = b).
-  { intros X a b. destruct (kernel_of_sqe s) eqn:E; auto. exfalso. exact (Hni _ E). }
+  { intros X a b. destruct (kernel_of_sqe s) eqn:E; auto. exfalso. exact (Hni _ eq_refl). }
   rewrite !Hgo. cbv zeta. rewrite Hres.
   assert (Hei : ((rc out r =? -1) && (perrno out r =? EINTR)) = false).
   { destruct (rc out r =? -1); auto. simpl in *. apply orb_false_iff in Hsp1. tauto. }
@@ -254,7 +254,7 @@ Proof.
   intros fuel op s st r st' Hni Hp Hr He. unfold ring_complete. rewrite Hp.
   assert (Hgo : forall (X : Type) (a b : X),
              match kernel_of_sqe s with PInvalid _ => a | _ => b end = b).
-  { intros X a b. destruct (kernel_of_sqe s) eqn:E; auto. exfalso. exact (Hni _ E). }
+  { intros X a b. destruct (kernel_of_sqe s) eqn:E; auto. exfalso. exact (Hni _ eq_refl). }
   rewrite !Hgo. cbv zeta. unfold result_z. rewrite Hr, He. reflexivity.
 Qed.
 
@@ -301,7 +301,7 @@ Proof.
   rewrite Hk. subst r. destruct (posix (work op) st) as [r st'] eqn:Hp. simpl in Hr.
   assert (Hgo : forall (X : Type) (a b : X),
              match kernel_of_sqe s with PInvalid _ => a | _ => b end = b).
-  { intros X a b. destruct (kernel_of_sqe s) eqn:E; auto. exfalso. exact (Hni _ E). }
+  { intros X a b. destruct (kernel_of_sqe s) eqn:E; auto. exfalso. exact (Hni _ eq_refl). }
   rewrite !Hgo. cbv zeta.
   (* the pool side: first call of the loop *)
   unfold Fs.fs_work. unfold op at 2. unfold op at 2.
@@ -313,28 +313,15 @@ Proof.
     - eauto.
     - exfalso. revert E. apply pick_call_is_some. now apply nb_pos. }
   destruct Hcall as (c & Hc & Hwc).
-  destruct bufs as [|b0 bs] eqn:Eb; [congruence|]. rewrite <- Eb in *.
-  assert (Hloop1 : forall total,
-    write_all_loop (sys_posix fs out posix fd) (S fuel) IOV_MAX st bufs off total =
-    match ans_of out r with
-    | AErr e => if e =? EINTR then
-        (let '(r1, lg, s2) := write_all_loop (sys_posix fs out posix fd) fuel IOV_MAX st' bufs off total
-         in (r1, (c, AErr e) :: lg, s2))
-        else (WDone (if (total =? 0)%nat then RErr e else ROk total), [(c, AErr e)], st')
-    | AOk O => (WDone (ROk total), [(c, AOk O)], st')
-    | AOk n =>
-        let '(o, bufs') := buf_offset bufs n in
-        let off' := if 0 <=? off then off + Z.of_nat n else off in
-        let '(r1, lg, s2) := write_all_loop (sys_posix fs out posix fd) fuel IOV_MAX st' (skipn o bufs') off' (total + n) in
-        (r1, (c, AOk n) :: lg, s2)
-    end).
-  { intros total. rewrite Eb at 1. cbn [write_all_loop]. rewrite <- Eb. rewrite Hc.
-    unfold sys_posix at 1. rewrite <- Hwc, Hp. reflexivity. }
+  assert (Hsys : sys_posix fs out posix fd st c = (ans_of out r, st'))
+    by (unfold sys_posix; rewrite <- Hwc, Hp; reflexivity).
+  pose proof (fun total => write_all_loop_step (sys_posix fs out posix fd) fuel IOV_MAX st bufs off total c Hne Hc)
+    as Hloop1.
   destruct Hr as [Hfull | (Hm1 & Hne1 & Hne2)].
   - (* everything accepted at once *)
     assert (Hpos : (0 < total_len bufs)%nat).
-    { inversion Hf; subst. unfold total_len. rewrite Eb. simpl. rewrite app_length.
-      destruct b0; [congruence|simpl; lia]. }
+    { destruct bufs as [|b0 bs]; [congruence|]. inversion Hf; subst. unfold total_len. simpl.
+      rewrite app_length. destruct b0; [congruence|simpl; lia]. }
     assert (Hans : ans_of out r = AOk (total_len bufs)).
     { unfold ans_of. rewrite Hfull.
       replace (Z.of_nat (total_len bufs) =? -1) with false by (symmetry; apply Z.eqb_neq; lia).
@@ -348,9 +335,9 @@ Proof.
       by (symmetry; apply Z.eqb_neq; unfold EOPNOTSUPP; lia).
     assert (Hact : action fs out posix no_out (S fuel) op st =
                    (mkRes out (Z.of_nat (total_len bufs)) 0 no_out, st')).
-    { unfold action, op, write_all. rewrite Hloop1, Hans.
-      destruct (total_len bufs) as [|m] eqn:Et; [lia|]. rewrite <- Et.
-      rewrite buf_offset_all by exact Hf. rewrite skipn_all.
+    { unfold action, op, write_all. rewrite Hloop1, Hsys, Hans.
+      destruct (total_len bufs) as [|m] eqn:Et; [lia|]. cbv iota. rewrite <- Et.
+      rewrite buf_offset_all by exact Hf. cbv iota beta. rewrite skipn_all.
       destruct fuel; reflexivity. }
     rewrite (retry_once _ _ _ _ _ _ Hact).
     2:{ simpl. replace (Z.of_nat (total_len bufs) =? -1) with false
@@ -365,7 +352,7 @@ Proof.
     replace (- perrno out r =? - EOPNOTSUPP) with false by (symmetry; apply Z.eqb_neq; lia).
     assert (Hact : action fs out posix no_out (S fuel) op st =
                    (mkRes out (-1) (perrno out r) no_out, st')).
-    { unfold action, op, write_all. rewrite Hloop1, Hans.
+    { unfold action, op, write_all. rewrite Hloop1, Hsys, Hans.
       replace (perrno out r =? EINTR) with false by (symmetry; apply Z.eqb_neq; exact Hne1).
       reflexivity. }
     rewrite (retry_once _ _ _ _ _ _ Hact).
